@@ -1,5 +1,5 @@
 ENTRY = dict(
-    runner="C12", pkg="./cmd/c12", corr=["Corr.C12Corr"], n=dict(quick=470, thorough=2120), runner_timeout=900,
+    runner="C12", pkg="./cmd/c12", corr=["Corr.C12Corr"], n=dict(quick=730, thorough=4500), runner_timeout=900,
     rule="every predefined parrot (38 ClientHelloIDs accepted by UTLSIdToSpec) over loopback TCP against the scripted server "
          "(verif_server.go), which forces ONE selection at a time drawn at run time from the complement of that very connection's "
          "parsed wire ClientHello: TLS 1.3 suite (implemented-but-unoffered, another GREASE value, unimplemented CCM suite, a TLS 1.2 "
@@ -8,7 +8,14 @@ ENTRY = dict(
          "number of offered identities, CompressedCertificate with an unadvertised algorithm, flipped/empty legacy_session_id echo; "
          "TLS 1.2 suite (implemented-but-unoffered, GREASE, a TLS 1.3 suite), ServerHello ALPN, compression 1, ECDHE "
          "ServerKeyExchange curve (implemented-but-unoffered, GREASE, re-signed); plus positive controls choosing an OFFERED value "
-         "of each kind and honest 1.3/1.2 servers. Quick: every 'real' variant and the controls of every parrot, other variants "
+         "of each kind and honest 1.3/1.2 servers. Multi-step situations: (a) the ServerHello kinds (session id, compression, GREASE / "
+         "changed suite, unoffered / GREASE group) forced on the ServerHello that FOLLOWS a well-formed HelloRetryRequest (offered group without a "
+         "share, else cookie only), also for HelloGolang via UClient; (b) stale offers: one HelloCustom UConn re-preset with a different spec "
+         "(ApplyPreset A, BuildHandshakeStateWithoutSession, ApplyPreset B) and parrots whose uc.Extensions / Hello the caller edits after "
+         "BuildHandshakeState (compress_certificate, ALPN, key_share entries or the whole extension, supported_groups entries or the whole "
+         "extension, suites): the server selects a value the EARLIER hello offered and the one on the wire does not; (c) resumption: a session "
+         "with suite 0xc009 from a real first connection handed with SetSessionState (or through the cache) to clients that do not offer it, "
+         "resumed by the server; own-session ticket resumption; TLS 1.3 PSK accepted under a suite of another hash. Quick: every 'real' variant and the controls of every parrot, other variants "
          "rotate with the seed; thorough: full product, randomised variants three times. A case is distinct by "
          "(kind, variant, parrot, forced value); non-trivial when the forced value is unoffered or the handshake completed.",
     trusted_base=["verif_server.go scripted server (built from the library's own server sub-steps) and verif_c12.go view accessors",
@@ -16,7 +23,7 @@ ENTRY = dict(
                   "cryptography, certificate validation, Finished and record protection abstracted into the flight's f_crypto_ok bit"],
     assumes=["the client's view equals the offered sets on its wire hello (synced v w): checked for every parrot on every run, not proved "
              "for arbitrary custom specs (needs the ClientHello marshal model of C01/C02)",
-             "first handshake, no ECH configured, no QUIC, no TLS 1.2 session resumption, PSK without a cached session omitted (OmitEmptyPsk)"],
+             "no ECH configured, no QUIC; TLS 1.2 ticket resumption and TLS 1.3 PSK modelled and exercised (Model/NegotiateSess.v), session-id (non-ticket) caches not (the Go server has none)"],
     level_text="Proof for every view, wire hello and server flight that a completed handshake carries only offered selections "
                "(suite 1.3/1.2 incl. suite confusion, 1.3 group, HRR group, ALPN, compression, PSK index, certificate-compression "
                "algorithm, session-id echo, TLS 1.2 ECDHE curve after the repair; the pre-repair curve statement is refuted). Partial: "
